@@ -81,6 +81,9 @@ func (b *binding) plan(s Shape) *planned {
 	}
 	p := &planned{shape: s, sdl: s.sdl(), query: s.query(), tree: s.tree()}
 	p.resp, p.err = b.planOne(p.sdl, p.query)
+	if p.err == nil && s.Strip {
+		p.resp = stripPossibleTypes(p.resp)
+	}
 	b.plans[s] = p
 	return p
 }
@@ -180,6 +183,29 @@ func (b *binding) planOne(sdl, query string) (resp *resolve.GraphQLResponse, err
 	return sp.Response, nil
 }
 
+// stripPossibleTypes returns the response plan with a copy of the response tree
+// in which no object restricts or names its runtime type - exactly the fields
+// resolve.(*Object).Copy does not carry over.
+func stripPossibleTypes(resp *resolve.GraphQLResponse) *resolve.GraphQLResponse {
+	data := resp.Data.Copy().(*resolve.Object)
+	var walk func(n resolve.Node)
+	walk = func(n resolve.Node) {
+		switch x := n.(type) {
+		case *resolve.Object:
+			x.PossibleTypes, x.InaccessibleTypes, x.TypeName, x.SourceName = nil, nil, "", ""
+			for _, f := range x.Fields {
+				walk(f.Value)
+			}
+		case *resolve.Array:
+			walk(x.Item)
+		}
+	}
+	walk(data)
+	cp := *resp
+	cp.Data = data
+	return &cp
+}
+
 // rendered is what one run of the renderer produced.
 type rendered struct {
 	Out       []byte
@@ -224,6 +250,9 @@ func (b *binding) renderFull(p *planned, payload []byte) (r rendered) {
 	b.sub.body = append(append([]byte(`{"data":`), payload...), '}')
 	b.sub.mu.Unlock()
 	rctx := resolve.NewContext(context.Background())
+	// the public path runs WITH a (never matching) type name rename rule, the
+	// narrow seam without any: both must give the same bytes
+	rctx.RenameTypeNames = []resolve.RenameTypeName{{From: []byte("NoSuchType"), To: []byte("Renamed")}}
 	var buf bytes.Buffer
 	if _, err := b.resolver.ResolveGraphQLResponse(rctx, p.resp, nil, &buf); err != nil {
 		r.Err = err
